@@ -48,6 +48,7 @@ def entries(tier="quick"):
     add("CauchyCDF(location 0.5, scale 2)", lambda: nl.CauchyCDF(location=0.5, scale=2.0), [3])
     add("CauchyCDFInverse(scale 3)", lambda: nl.CauchyCDFInverse(location=0.0, scale=3.0), [3], dom="unit")
     add("LeakyReLU(slope 0.4)", lambda: nl.LeakyReLU(0.4), [3], kinks=True)
+    add("LeakyReLU(slope 2.5: steeper below zero)", lambda: nl.LeakyReLU(2.5), [3], kinks=True)
     add("CompositeCDF(Sigmoid,PiecewiseRQ)", lambda: nl.CompositeCDFTransform(nl.Sigmoid(), nl.PiecewiseRationalQuadraticCDF([3], num_bins=3)), [3], kinks=True)
     for nm, cls in (("PiecewiseLinearCDF", nl.PiecewiseLinearCDF), ("PiecewiseQuadraticCDF", nl.PiecewiseQuadraticCDF),
                     ("PiecewiseCubicCDF", nl.PiecewiseCubicCDF), ("PiecewiseRationalQuadraticCDF", nl.PiecewiseRationalQuadraticCDF)):
@@ -112,6 +113,7 @@ def entries(tier="quick"):
     add("PiecewiseRQCoupling tails, mins", lambda: cp.PiecewiseRationalQuadraticCouplingTransform(
         mask, mk2(), num_bins=3, tails="linear", tail_bound=2.0, min_bin_width=0.05, min_bin_height=0.02, min_derivative=0.1), [3], kinks=True)
     add("UMNNCoupling", lambda: cp.UMNNCouplingTransform(mask, mk2(), integrand_net_layers=[8, 8], cond_size=4, nb_steps=30), [3], umnn=True)
+    add("UMNNCoupling(image, two transformed channels)", lambda: cp.UMNNCouplingTransform(mask, mk4(), integrand_net_layers=[8, 8], cond_size=4, nb_steps=30), [3, 2, 2], umnn=True)
     # ---- masked autoregressive
     add("MaskedAffineAR", lambda: ar.MaskedAffineAutoregressiveTransform(3, 8, num_blocks=1), [3])
     add("MaskedAffineAR(ctx, random mask)", lambda: ar.MaskedAffineAutoregressiveTransform(3, 8, context_features=2, num_blocks=1, use_residual_blocks=False, random_mask=True), [3], ctx=[2])
